@@ -430,6 +430,62 @@ def tableKind (recName : Option String) (ctes temps : List String) (n : String) 
   else if nameIn temps n then .temp
   else .file
 
+/-! ### what a scope inherits: `createScope` / `CreateNode` / `CreateChild` (reference_scope.go)
+
+  `loadObject` consults the scope it is called with.  Every query nested in another one runs in a scope DERIVED
+  from the enclosing one: a sub-query evaluated for a record (WHERE / select list / LATERAL: `createScope`), a
+  query or derived table of its own (`CreateNode`: a new, empty layer of common table expressions on top), a
+  block (`CreateChild`).  All three copy `RecursiveTable`, `RecursiveTmpView` and `RecursiveCount` (and the
+  file-path cache and the statement's time stamp); `selectSetForRecursion` stores the records of the step just
+  computed in `RecursiveTmpView` before the next step is evaluated.  So, inside the recursive member of
+  `WITH RECURSIVE r`, the name `r` denotes the records of the previous iteration wherever it is written - a
+  second time in the FROM list, in a derived table, in a sub-query evaluated per record at any depth - and no
+  common table expression, temporary table or file called `r` is looked at.  Inside the anchor member
+  `RecursiveTmpView` is still nil: there the name is what it was outside. -/
+
+structure NameScope where
+  recName : Option String          -- RecursiveTable.Name
+  working : Option (List Row)      -- RecursiveTmpView: the records of the previous iteration
+  ctes : List String               -- inline tables of all node layers, innermost first
+  temps : List String              -- temporary tables of all blocks
+  limitCount : Nat := 0            -- *RecursiveCount (shared)
+
+inductive ScopeStep
+  | record                          -- createScope: one more record on the stack of outer records
+  | node (defined : List String)    -- CreateNode, then the WITH clause of that query defines these names
+  | child                           -- CreateChild
+
+/-- the derived scope: the three recursion fields are inherited by every constructor -/
+def NameScope.derive (s : NameScope) : ScopeStep → NameScope
+  | .record => { recName := s.recName, working := s.working, ctes := s.ctes, temps := s.temps, limitCount := s.limitCount }
+  | .node defined => { recName := s.recName, working := s.working, ctes := defined ++ s.ctes, temps := s.temps, limitCount := s.limitCount }
+  | .child => { recName := s.recName, working := s.working, ctes := [], temps := s.temps, limitCount := s.limitCount }
+
+def NameScope.deriveAll (s : NameScope) (steps : List ScopeStep) : NameScope := steps.foldl NameScope.derive s
+
+/-- the test of `loadObject`: the working view only when there is one -/
+def NameScope.kindOf (s : NameScope) (n : String) : TKind :=
+  tableKind (match s.working with | some _ => s.recName | none => none) s.ctes s.temps n
+
+/-- what the name stands for: the previous iteration's records, or an object found by `tableKind` -/
+inductive Denotation
+  | previousIteration (rows : List Row)
+  | object (k : TKind)
+
+def NameScope.denotes (s : NameScope) (n : String) : Denotation :=
+  match s.working, s.kindOf n with
+  | some g, .recursive => .previousIteration g
+  | _, k => .object k
+
+/-- the scope of the k-th step of `WITH RECURSIVE r …` over an enclosing scope `s` (`InlineTableMap.Set` derives a
+    node, sets RecursiveTable; `selectSetForRecursion` sets RecursiveTmpView and derives a node for the member) -/
+def NameScope.forStep (s : NameScope) (r : String) (g : List Row) : NameScope :=
+  { (s.derive (.node [])) with recName := some r, working := some g }.derive (.node [])
+
+/-- the scope of the anchor member: RecursiveTable is set, RecursiveTmpView is not -/
+def NameScope.forAnchor (s : NameScope) (r : String) : NameScope :=
+  { (s.derive (.node [])) with recName := some r, working := none }.derive (.node [])
+
 /-! ### conditions with field references by name; resolution errors surface only where the Go code evaluates
 
   `resolveCond` replaces every reference by its column (or by the error); `evalCondE` then evaluates with
